@@ -284,17 +284,23 @@ def adjudicate(u, const_path, cases, obs, blobs, init_kind, tag, stats):
     bpath = os.path.join(vlib.TMP, "blobs-%s.json" % tag)
     ppath = os.path.join(vlib.TMP, "paths-%s.json" % tag)
     trpath = os.path.join(vlib.TMP, "trees-%s.json" % tag)
-    json.dump(trees, open(trpath, "w"))
-    vlib.write_ndjson(tpath, recs)
     json.dump(btab, open(bpath, "w"))
     json.dump(paths, open(ppath, "w"))
-    a = vlib.run_tlc("Trace_Export", "Trace_Export.cfg", workers=12, timeout=3000,
-                     env={"VERIF_UNIVERSE": const_path, "VERIF_TRACE": tpath, "VERIF_BLOBS": bpath, "VERIF_PATHS": ppath, "VERIF_TREES": trpath},
-                     tags=("OUT",), metatag="te-" + tag)
-    vlib.tlc_must_succeed(a, "Trace_Export " + tag)
-    outs = {o["hid"]: o for o in a.payloads("OUT")}
-    if len(outs) != len(recs):
-        raise ToolError("adjudication judged %d of %d histories" % (len(outs), len(recs)))
+    # in chunks: the tables a chunk needs stay small (TLC reads them again for every record)
+    outs, CH = {}, 3000
+    for k in range(0, len(recs), CH):
+        part = recs[k:k + CH]
+        used = {r["init_tree"] for r in part} | {s["tree"] for r in part for s in r["steps"]}
+        json.dump({t: trees[t] for t in used}, open(trpath, "w"))
+        vlib.write_ndjson(tpath, part)
+        a = vlib.run_tlc("Trace_Export", "Trace_Export.cfg", workers=12, timeout=3000,
+                         env={"VERIF_UNIVERSE": const_path, "VERIF_TRACE": tpath, "VERIF_BLOBS": bpath, "VERIF_PATHS": ppath, "VERIF_TREES": trpath},
+                         tags=("OUT",), metatag="te-%s-%d" % (tag, k // CH))
+        vlib.tlc_must_succeed(a, "Trace_Export " + tag)
+        got = {o["hid"]: o for o in a.payloads("OUT")}
+        if len(got) != len(part):
+            raise ToolError("adjudication judged %d of %d histories" % (len(got), len(part)))
+        outs.update(got)
     stats["adjudicated"] = stats.get("adjudicated", 0) + len(recs)
     for f in (tpath, bpath, ppath, trpath):
         os.remove(f)
